@@ -1,7 +1,7 @@
 #!/usr/bin/env python3
 """Development tool: run the model configurations of a tier once, print their sizes and fill the model-check cache.
 
-  mcsize.py [quick|thorough] [cfg-substring ...]      (time limit per configuration: MC_TIMEOUT seconds, default 1500)
+  mcsize.py [quick|thorough] [cfg-substring ...]      (time budget per configuration: VERIF_MC_BUDGET seconds, default 600)
 """
 import sys, os, glob, json, time, hashlib
 sys.path.insert(0, os.path.dirname(os.path.abspath(__file__)))
@@ -10,7 +10,7 @@ import verif
 tier = sys.argv[1] if len(sys.argv) > 1 else "thorough"
 subs = sys.argv[2:]
 spec = verif.SPEC
-limit = int(os.environ.get("MC_TIMEOUT", "1500"))
+limit = int(os.environ.get("VERIF_MC_BUDGET", "600"))
 for p in sorted(glob.glob(os.path.join(spec, "MC_*_%s*.cfg" % tier))):
     cfg = os.path.basename(p)
     if subs and not any(s in cfg for s in subs):
@@ -25,7 +25,8 @@ for p in sorted(glob.glob(os.path.join(spec, "MC_*_%s*.cfg" % tier))):
         continue
     t0 = time.time()
     try:
-        out, st = verif.tlc("MC.tla", cfg, workers="auto", timeout=limit, heap="-Xmx24g")
+        out, st = verif.tlc("MC.tla", cfg, workers="auto", timeout=limit + 900, heap="-Xmx12g", stop_after=limit)
+        st["complete"] = st.get("left_on_queue") == 0
     except verif.Inconclusive as ex:
         print("%-36s TIMEOUT after %ds" % (cfg, limit), flush=True)
         continue
@@ -34,5 +35,5 @@ for p in sorted(glob.glob(os.path.join(spec, "MC_*_%s*.cfg" % tier))):
     if st.get("ok"):
         os.makedirs(os.path.dirname(cache), exist_ok=True)
         json.dump(st, open(cache, "w"))
-    print("%-36s %s distinct=%s generated=%s depth=%s wall=%ss" % (cfg, "ok" if st.get("ok") else "NOT OK: " + out[-1500:], st.get("distinct"), st.get("generated"),
-                                                                  st.get("depth"), st["wall_s"]), flush=True)
+    print("%-36s %s distinct=%s generated=%s depth=%s left=%s wall=%ss" % (cfg, "ok" if st.get("ok") else "NOT OK: " + out[-1500:], st.get("distinct"), st.get("generated"),
+                                                                  st.get("depth"), st.get("left_on_queue"), st["wall_s"]), flush=True)
